@@ -682,7 +682,7 @@ func (g *G) Op() Op {
 		} else {
 			op.Sets = g.Sets()
 		}
-	case "resave", "delete", "deleteAbsent":
+	case "resave", "delete", "deleteAbsent", "flushOne":
 		op.Ref = g.uni(64, "ref")
 	case "resurrect":
 		op.Ref = g.uni(64, "ref")
@@ -711,6 +711,9 @@ func (g *G) Op() Op {
 			"path": pickU(g, []string{"F64", "F32", "In.F", "Pt.F"}, "badpath"),
 			"val":  pickU(g, []string{"nan", "inf", "-inf"}, "badval"),
 		}
+	case "coldUpdate":
+		op.Ref = g.uni(64, "ref")
+		op.Sets = g.Sets()
 	case "tick":
 		op.Ms = 100 * (1 + g.uni(12, "tickms"))
 	case "snapshot":
